@@ -10,6 +10,8 @@ CONSTANTS
   Alphabet <- CoreCmds
   PreAlphabet <- CorePreCmds
   Kinds <- AllKinds
+  Modes <- ScriptMode
+  Fins <- NormalFin
   Ctxs <- MainCtx
 INIT Init
 NEXT Next
